@@ -157,6 +157,27 @@ def run_ppos_case(ctx, case):
               lambda: {"ppos": p[:5], "tail": p[-5:]})
     if n >= 2:
         ctx.nontrivial("ppos", n, cst)
+    # the size as a caller holds it: a numpy integer of any width that takes it (the
+    # length of a short record kept in a uint8, say), also at the maximum of the type
+    for nn_, dt_ in ((n, np.int64), (n, np.int32), (min(n, 32767), np.int16),
+                     (min(n, 127), np.int8), (min(n, 255), np.uint8), (127, np.int8),
+                     (255, np.uint8), (32767, np.int16), (65535, np.uint16)):
+        if (n + nn_) % 3 and nn_ == n:
+            continue
+        ctx.tag("ppos:size-as-numpy-integer")
+        ctx.api("ppos", 2)
+        try:
+            with np.errstate(all="ignore"), warnings.catch_warnings():
+                warnings.simplefilter("ignore")
+                pa = np.asarray(su.ppos(dt_(nn_), cst), dtype=float)
+            pb = np.asarray(su.ppos(int(nn_), cst), dtype=float)
+            okn = pa.shape == pb.shape and bool(np.allclose(pa, pb, rtol=1e-14, atol=0))
+        except Exception as e:
+            pa, okn = repr(e)[:200], False
+        ctx.check("ppos.numpy-integer-size", okn,
+                  "ppos|result-depends-on-integer-type-of-the-size", case,
+                  lambda: {"n": int(nn_), "dtype": np.dtype(dt_).name,
+                           "first": pa[:3] if isinstance(pa, np.ndarray) else pa})
     # the caller turns its positions into percentages in place; a later call is not
     # affected
     r1 = su.ppos(n, cst)
